@@ -22,6 +22,7 @@ LEAN = os.path.join(VERIF, "lean")
 WORK = os.path.join(VERIF, "work")
 HARNESS = os.path.join(VERIF, "harness")
 HBIN = os.path.join(HARNESS, "bin", "harness")
+HBIN_RACE = os.path.join(HARNESS, "bin", "harness-race")
 G2L = os.path.join(VERIF, "tools", "bin", "go2lean")
 RESPATHS = os.path.join(VERIF, "tools", "bin", "respaths")
 DRV = os.path.join(LEAN, ".lake", "build", "bin", "sonicdrv")
@@ -115,6 +116,13 @@ def build_harness():
         if not b.startswith(a):
             open(sumdst, "wb").write(a)
     rc, out = run(["go", "build", "-tags", "verif", "-o", HBIN, "."], cwd=HARNESS, env=goenv(), timeout=600)
+    return rc == 0, out
+
+
+def build_harness_race():
+    """The harness built with Go's race detector (direct monitors marked "race"). Call after build_harness (go.mod is set).
+    checkptr is off: the library's createEvent fails it on the unchanged tree, which is not what these monitors are about."""
+    rc, out = run(["go", "build", "-race", "-gcflags=all=-d=checkptr=0", "-tags", "verif", "-o", HBIN_RACE, "."], cwd=HARNESS, env=goenv(), timeout=900)
     return rc == 0, out
 
 
